@@ -122,10 +122,57 @@ fn alpha_rules() -> Vec<(String, String)> {
     v
 }
 
+/// (e) `a > i / X=1 _ 1:[-long]` (and `[-stress]`) on /x a y/ for x, y over 31 phones incl. secondary-articulation twins: fires iff x == y. (d) a variable inside a structure of the context: `C=1 a > i / _ ⟨1 a⟩` must act as the composition of the literal rules
+/// `p a > i / _ ⟨p a⟩` then `t a > i / _ ⟨t a⟩` (the positions the two select are disjoint and neither feeds the other)
+fn var_in_structure(shape: usize, ws: &[CW], a: &mut Acc) {
+    let mk = |c: &str| match shape { 0 => format!("{} a > i / _ ⟨{} a⟩", if c == "1" { "C=1" } else { c }, c), 1 => format!("{} a > i / ⟨{} a⟩ _", if c == "1" { "C=1" } else { c }, c), 2 => format!("{} > i / _ ⟨t ... {}⟩", if c == "1" { "V=1" } else { c }, c), _ => format!("{} a > i / _ ⟨{} ... ⟩", if c == "1" { "C=1" } else { c }, c) };
+    let lits: Vec<&str> = if shape == 2 { vec!["a", "i"] } else { vec!["p", "t"] };
+    let var_rule = mk("1");
+    let comp = |t: &str| match guarded(1_000_000, || av::compile(&[group(&[t])])) { Out::Ok(Ok(c)) => Some(c), _ => None };
+    let Some(cv) = comp(&var_rule) else { a.viols.push(Viol { key: format!("var-in-structure|compile|{}", var_rule), desc: format!("`{}` does not compile", var_rule), case: json!({"kind": "varstruct", "shape": shape}) }); return };
+    let cl: Vec<_> = lits.iter().filter_map(|c| comp(&mk(c))).collect();
+    if cl.len() != lits.len() { a.rejected += 1; return; }
+    for w in ws {
+        a.evals += 1;
+        let got = guarded(200_000, || av::apply_group(&cv, 0, word_of(w)).map(|x| cw_of(&x)).map_err(|e| format!("{:?}", e)));
+        let want = guarded(400_000, || { let mut cur = word_of(w); for c in &cl { cur = av::apply_group(c, 0, cur).map_err(|e| format!("{:?}", e))?; } Ok::<CW, String>(cw_of(&cur)) });
+        match (got, want) {
+            (Out::Ok(g), Out::Ok(x)) if g == x => { if g.as_ref().ok() == Some(w) { a.nofire += 1; } else { a.fire += 1; a.outs.insert(hash64(&g)); } }
+            (g, x) => a.viols.push(Viol { key: format!("var-in-structure|{}|{}", var_rule, show_cw(w)), desc: format!("`{}` on /{}/ gives {:?}; the literal rules {:?} one after the other give {:?}", var_rule, show_cw(w), g.crash_desc().map(Err::<String, String>).unwrap_or(Ok(String::new())).err().or(None), lits.iter().map(|c| mk(c)).collect::<Vec<_>>(), x.crash_desc()), case: json!({"kind": "varstruct", "shape": shape, "word": cw_json(w)}) }),
+        }
+    }
+}
+
+/// (e) a variable that carries a (suprasegmental) modifier still matches only a segment identical to the captured one: /x a y/ with
+/// x, y over plain phones and their secondary-articulation twins (k kʷ, t tʲ tˤ ...)
+fn sandwich_mod(rule: usize, a: &mut Acc) {
+    let texts = ["a > i / []=1 _ 1:[-long]", "a > i / C=1 _ 1:[-long]", "a > i / []=1 _ 1:[-stress]", "a > i / 1:[-long] _ []=1"];
+    let text = texts[rule];
+    let Some(compiled) = (match guarded(1_000_000, || av::compile(&[group(&[text])])) { Out::Ok(Ok(c)) => Some(c), _ => None }) else { a.rejected += 1; return; };
+    let uni: Vec<SegBits> = ["k", "kʷ", "kʲ", "t", "tʲ", "tˤ", "tʷ", "p", "pʲ", "pʰ", "n", "n̩", "ã", "i", "ĩ", "s", "sʷ", "d", "dʲ", "kʰ", "q", "qʷ", "c", "ɡ", "ɡʷ", "m", "mʲ", "l", "lˠ", "u", "ũ"].iter().filter_map(|t| match guarded(200_000, || av::parse_word(t, None)) { Out::Ok(Ok(w)) if w.syllables.len() == 1 && w.syllables[0].segments.len() == 1 => Some(bits(&w.syllables[0].segments[0])), _ => None }).collect();
+    let (sa, si) = (seg("a"), seg("i"));
+    for x in &uni { for y in &uni {
+        let w: CW = vec![CSyl { segs: vec![*x, sa, *y], stress: 0, tone: 0 }];
+        // rule 3 declares the variable AFTER its use (`1:[-long] _ []=1`): not a binding order the manual defines, so only the Ok/unchanged case is claimed there
+        let is_c = model::feat(*x, 2) == Some(false);
+        let fires = match rule { 1 => x == y && is_c, 3 => false, _ => x == y };
+        let mut e = w.clone(); if fires { e[0].segs[1] = si; }
+        if has_adjacent_equal(&e) { continue; }
+        a.evals += 1;
+        match guarded(budget_for(8, text.chars().count()), || av::apply_group(&compiled, 0, word_of(&w)).map(|x| cw_of(&x)).map_err(|e| format!("{:?}", e))) {
+            Out::Ok(Ok(g)) if g == e => { if fires { a.fire += 1 } else { a.nofire += 1 } a.outs.insert(hash64(&g)); }
+            Out::Ok(Err(_)) if rule == 3 => { a.errs += 1; }
+            Out::Ok(Ok(g)) if rule == 3 && g[0].segs[1] == si && x == y => { a.fire += 1; }
+            Out::Ok(g) => a.viols.push(Viol { key: format!("sandwich-mod|{}|{}", text, show_cw(&w)), desc: format!("`{}` on /{}/: a variable with a modifier must match only a segment identical to the captured one: expected /{}/, got {:?}", text, show_cw(&w), show_cw(&e), g.map(|x| show_cw(&x))), case: json!({"kind": "sandwichmod", "rule": rule, "word": cw_json(&w)}) }),
+            _ => {}
+        }
+    } }
+}
+
 pub fn run() -> i32 {
     let mut r = Report::new("C07");
     let thorough = r.thorough();
-    r.rule = "(a) `X1=1 .. Xk=k > 1 .. k`, Xi in {[], [+cons], C, V, %, ⟨...⟩, ⟨CV⟩, %:[+stress]}, with no environment and with every one-item-per-side environment over {p,t,a,i,[+cons],C,V,[+hi],{p,a},$,#}; (b) `[αF] > [αF]`, `[-αF] > [-αF]` for 26 features, `[αN] > [αN]` for lab/cor/dor/phr/place, alphas on long / overlong / stress / sec.stress alone and in pairs, on matrices, `%`, groups and IPA; x decorated words of W(I4,L) (long segments, stress, tones) and, for (b), every one-segment word over the segment universe; oracle: result == input. (c) `a > i / X=1 _ 1` for X in {[], C, V, [+cons], %} vs a reference that fires exactly between identical neighbours. Non-trivial = rule compiled, call returned Ok.".into();
+    r.rule = "(a) `X1=1 .. Xk=k > 1 .. k`, Xi in {[], [+cons], C, V, %, ⟨...⟩, ⟨CV⟩, %:[+stress]}, with no environment and with every one-item-per-side environment over {p,t,a,i,[+cons],C,V,[+hi],{p,a},$,#}; (b) `[αF] > [αF]`, `[-αF] > [-αF]` for 26 features, `[αN] > [αN]` for lab/cor/dor/phr/place, alphas on long / overlong / stress / sec.stress alone and in pairs, on matrices, `%`, groups and IPA; x decorated words of W(I4,L) (long segments, stress, tones) and, for (b), every one-segment word over the segment universe; oracle: result == input. (c) `a > i / X=1 _ 1` for X in {[], C, V, [+cons], %} vs a reference that fires exactly between identical neighbours. (e) `a > i / X=1 _ 1:[-long]` (and `[-stress]`) on /x a y/ for x, y over 31 phones incl. secondary-articulation twins: fires iff x == y. (d) a variable inside a structure of the context (`C=1 a > i / _ ⟨1 a⟩`, before-context, after an ellipsis, before an ellipsis) vs the literal rules applied one after the other. Non-trivial = rule compiled, call returned Ok.".into();
     let l = if thorough { 4 } else { 3 };
     let ws = words(l);
     let kmax = if thorough { 3 } else { 2 };
@@ -162,6 +209,18 @@ pub fn run() -> i32 {
     par_fold(xs.len(), 1, Acc::default, |i, a| sandwich(xs[i], &wc, a), |a| tc.merge(a));
     r.boxes.push(json!({"box": "(c) variable in context", "rules": xs.len(), "words": wc.len(), "evaluated": tc.evals, "fired": tc.fire, "not_fired": tc.nofire}));
     r.guard(tc.fire > 0 && tc.nofire > 0, "(c) fires on some words and not on others");
+    // (d)
+    let mut td = Acc::default();
+    par_fold(4, 1, Acc::default, |i, a| var_in_structure(i, &wc, a), |a| td.merge(a));
+    r.boxes.push(json!({"box": "(d) variable inside a context structure vs the literal rules", "rules": 4, "words": wc.len(), "evaluated": td.evals, "changed": td.fire, "unchanged": td.nofire}));
+    r.guard(td.fire > 0 && td.nofire > 0, "(d) changes some words and not others");
+    tc.merge(td);
+    // (e)
+    let mut te = Acc::default();
+    par_fold(4, 1, Acc::default, |i, a| sandwich_mod(i, a), |a| te.merge(a));
+    r.boxes.push(json!({"box": "(e) variable with a modifier in the context, phones and their secondary-articulation twins", "rules": 4, "evaluated": te.evals, "fired": te.fire, "not_fired": te.nofire}));
+    r.guard(te.fire > 50 && te.nofire > 1000, "(e) fires on identical neighbours only");
+    tc.merge(te);
     r.evaluations = tot.evals + tb.evals + tc.evals; r.transitions = r.evaluations; r.validated = tot.same + tb.same + tc.fire + tc.nofire; r.nontrivial = r.validated;
     r.outcome("unchanged", tot.same + tb.same); r.outcome("runtime_error", tot.errs + tb.errs); r.outcome("context_fired", tc.fire); r.outcome("context_not_fired", tc.nofire);
     r.states.extend(tot.outs.iter().chain(tb.outs.iter()).chain(tc.outs.iter()).cloned());
@@ -177,6 +236,8 @@ pub fn replay(case: &Value) -> Result<String, String> {
     match case["kind"].as_str() {
         Some("identity") => { let w = cw_from_json(&case["word"]).ok_or("no word")?; identity_rule(case["rule"].as_str().ok_or("no rule")?, case["class"].as_str().unwrap_or(""), &[w], &mut a); }
         Some("sandwich") => { let w = cw_from_json(&case["word"]).ok_or("no word")?; sandwich(match case["x"].as_str() { Some("[]") => "[]", Some("C") => "C", Some("V") => "V", Some("[+cons]") => "[+cons]", _ => "%" }, &[w], &mut a); }
+        Some("sandwichmod") => { sandwich_mod(case["rule"].as_u64().unwrap_or(0) as usize, &mut a); let w = cw_from_json(&case["word"]).ok_or("no word")?; a.viols.retain(|v| v.key.ends_with(&format!("|{}", show_cw(&w)))); }
+        Some("varstruct") => { let w = cw_from_json(&case["word"]).ok_or("no word")?; var_in_structure(case["shape"].as_u64().unwrap_or(0) as usize, &[w], &mut a); }
         _ => return Err("unknown case".into()),
     }
     if let Some(v) = a.viols.first() { Err(v.desc.clone()) } else { Ok("holds".into()) }
